@@ -404,7 +404,7 @@ func c10Wiring() {
 					return true
 				}
 				inner, ok := sel.X.(*ast.SelectorExpr)
-				if !ok || inner.Sel.Name != "outFilter" {
+				if !ok || (inner.Sel.Name != "outFilter" && inner.Sel.Name != "bisyncNsFilter") {
 					return true
 				}
 				// context: the condition of the innermost `if` whose condition contains the
@@ -470,25 +470,91 @@ func c10Wiring() {
 		})
 	}
 	facts["output_filter_handoff"] = handoff
+	// every assignment, in any non-test file of the repository, whose left side goes through a
+	// field of the filter configuration (a rewrite of what the user configured)
 	var cfgWrites []string
-	{
-		fset, f := parseFile("config/config.go")
+	fields := []string{".Filter", "DbBlacklist", "CmdBlacklist", "KeyFilter", "SlotFilter", "PrefixKeyWhitelist",
+		"PrefixKeyBlacklist", "KeySlotWhitelist", "KeySlotBlacklist"}
+	filepath.Walk(*repo, func(pth string, info os.FileInfo, err error) error {
+		if err != nil {
+			return nil
+		}
+		rel, _ := filepath.Rel(*repo, pth)
+		if info.IsDir() {
+			if rel == "tests" || rel == ".git" || rel == "vendor" || rel == "docs" || rel == "deploy" {
+				return filepath.SkipDir
+			}
+			return nil
+		}
+		if !strings.HasSuffix(pth, ".go") || strings.HasSuffix(pth, "_test.go") {
+			return nil
+		}
+		fset, f := parseFile(rel)
 		ast.Inspect(f, func(n ast.Node) bool {
 			as, ok := n.(*ast.AssignStmt)
 			if !ok {
 				return true
 			}
 			for _, l := range as.Lhs {
-				if strings.Contains(c10Render(fset, l), "Filter") {
-					cfgWrites = append(cfgWrites, c10Render(fset, as))
+				ls := c10Render(fset, l)
+				for _, fl := range fields {
+					if strings.Contains(ls, fl) {
+						cfgWrites = append(cfgWrites, rel+": "+c10Render(fset, as))
+						return true
+					}
 				}
 			}
 			return true
 		})
-	}
+		return nil
+	})
+	sort.Strings(cfgWrites)
 	if cfgWrites == nil {
 		cfgWrites = []string{}
 	}
+
+	// the data that flows into the wiring: every assignment inside NewRedisOutput to an identifier
+	// that is an argument of an Insert* call
+	var defs []string
+	{
+		fset, f := parseFile("syncer/output.go")
+		if fd := c10FindFunc(f, "NewRedisOutput"); fd != nil {
+			used := map[string]bool{}
+			ast.Inspect(fd.Body, func(n ast.Node) bool {
+				ce, ok := n.(*ast.CallExpr)
+				if !ok {
+					return true
+				}
+				if sel, ok := ce.Fun.(*ast.SelectorExpr); ok && strings.HasPrefix(sel.Sel.Name, "Insert") {
+					for _, a := range ce.Args {
+						ast.Inspect(a, func(m ast.Node) bool {
+							if id, ok := m.(*ast.Ident); ok {
+								used[id.Name] = true
+							}
+							return true
+						})
+					}
+				}
+				return true
+			})
+			ast.Inspect(fd.Body, func(n ast.Node) bool {
+				as, ok := n.(*ast.AssignStmt)
+				if !ok {
+					return true
+				}
+				for _, l := range as.Lhs {
+					if id, ok := l.(*ast.Ident); ok && used[id.Name] && id.Name != "cfg" && id.Name != "ro" {
+						defs = append(defs, c10Render(fset, as))
+					}
+				}
+				return true
+			})
+		}
+	}
+	if defs == nil {
+		defs = []string{}
+	}
+	facts["output_filter_wiring_defs"] = defs
 	facts["config_filter_writes"] = cfgWrites
 }
 
